@@ -84,10 +84,13 @@ impl UpdateGenerator for MarkdownUpdateGenerator {
                     } else {
                         format!(" {{{}}}", config_lines.join_newline().trim_start())
                     };
-                    let generated = if code_lines.is_empty() {
-                        // a block without code holds no testcase (the parser skips it as
-                        // well), hence there is no outcome that belongs to it
-                        String::new()
+                    let generated = if !code_lines.iter().any(|(_, line)| line.starts_with("$ ")) {
+                        // a block without a command holds no testcase (the parser skips it as
+                        // well), hence there is no outcome that belongs to it: it is kept as is
+                        code_lines
+                            .iter()
+                            .map(|(_, line)| line.assure_newline())
+                            .collect::<String>()
                     } else {
                         let generated = outcomes[testcase_index]
                             .generate_testcase()
